@@ -12,6 +12,10 @@ ELEN = int(os.environ.get("C11_ELEN", "2"))
 FIRST = int(os.environ.get("C11_FIRST", "-1"))
 SECOND = int(os.environ.get("C11_SECOND", "-1"))
 ESTEP = int(os.environ.get("C11_ESTEP", "-1"))
+INITIAL = int(os.environ.get("C11_INITIAL", "2"))
+SMAX = int(os.environ.get("C11_SMAX", "2"))       # latest send step
+DMAX = int(os.environ.get("C11_DMAX", "2"))       # longest delay (steps)
+WMAX = int(os.environ.get("C11_WMAX", "0"))       # population changes may happen before steps 0..WMAX
 MAXID = 3
 NSTEPS = 5
 
@@ -35,6 +39,8 @@ class _M(Model):
 def new_model(dt=1):
     m = _M(starttime=0, stoptime=NSTEPS, dt=dt, scheduler=SimultaneousScheduler(), data_collector=DataCollector())
     m.register_agent_factory("A", lambda agent_id, model, properties: _Rec(agent_id, model, properties, "A"))
+    for _ in range(INITIAL):         # an initial population, so that short histories can already replace an agent
+        m.create_agent("A", None)
     m.run_specs(0, NSTEPS, dt)       # keeps dt an int (Model.__init__ turns it into a float; symbolic int-float
     m.log = []                       # mixing makes the engine's z3 queries time out)
     m.now = None
@@ -46,19 +52,25 @@ def run_script(hist, sends):
     sends: [(step, receiver, delay_steps)]  delay_steps < 0 means a plain Event
     returns None or a description of the first discrepancy"""
     m = new_model()
-    try:
-        for op, arg in hist:
-            if op == 0:
-                m.create_agent("A", None)
-            elif op == 1:
-                m.delete_agent(arg)
-            else:
-                m.configure_agents([{"name": "A", "count": 2}])
-    except Exception as ex:  # noqa
-        return "history raised %r" % (ex,)
-    live = [a.id for a in m.agents]            # concrete ints (issued by the model's counter)
+    hist = [(h[0], h[1], (h[2] if len(h) > 2 else 0)) for h in hist]
+
+    def apply_ops(step):
+        for op, arg, when in hist:
+            if when == step:
+                if op == 0:
+                    m.create_agent("A", None)
+                elif op == 1:
+                    m.delete_agent(arg)
+                else:
+                    m.configure_agents([{"name": "A", "count": 2}])
+    live_at = []                                # live ids when step s distributes its events (concrete ints)
     crashed = None
     for s in range(NSTEPS):
+        try:
+            apply_ops(s)                        # population changes happen between steps, before the step's sends
+        except Exception as ex:  # noqa
+            return "history raised %r" % (ex,)
+        live_at.append([a.id for a in m.agents])
         for idx, (st, rid, dl) in enumerate(sends):
             if st == s:
                 name = "e%d" % idx
@@ -72,17 +84,26 @@ def run_script(hist, sends):
             crashed = "step %d raised %r" % (s, ex)
             break
     # no dictionaries keyed by symbolic values here: hashing would make CrossHair realise them
+    while len(live_at) < NSTEPS:
+        live_at.append([a.id for a in m.agents])
+    ever = []
+    for l in live_at:
+        for i in l:
+            if i not in ever:
+                ever.append(i)
+    live = ever
     for (aid, name, t) in m.log:
-        if aid not in live:
+        if aid not in ever:
             return "a non-existing agent %r handled %s" % (aid, name)
-    for aid in live:
+    for aid in ever:
         lst = [(t, name) for (a, name, t) in m.log if a == aid]
         want = []
         for idx, (st, rid, dl) in enumerate(sends):
             if rid == aid:
                 when = st + (dl if dl > 0 else 0)
-                if when < NSTEPS:
-                    want.append((when, idx, "e%d" % idx))
+                for s_ in range(NSTEPS):        # keeps `when` symbolic, the liveness table concrete
+                    if when == s_ and aid in live_at[s_]:
+                        want.append((when, idx, "e%d" % idx))
         for (t, name) in lst:
             ok = False
             for (w, i, n) in want:
@@ -122,13 +143,22 @@ def _valid(hist, sends):
             and (FIRST < 0 or (len(hist) > 0 and hist[0][0] == FIRST)))
 
 
-def _mk(h0, a0, h1, a1, h2, a2, s0, r0, d0, s1, r1, d1, s2, r2, d2):
-    hist = [(h0, a0), (h1, a1), (h2, a2)][:HLEN]
+def _mk(h0, a0, h1, a1, h2, a2, s0, r0, d0, s1, r1, d1, s2, r2, d2, w0=0, w1=0, w2=0):
+    hist = [(h0, a0, w0), (h1, a1, w1), (h2, a2, w2)][:HLEN]
     sends = [(s0, r0, d0), (s1, r1, d1), (s2, r2, d2)][:ELEN]
     return hist, sends
 
 
-def _pre(h0, a0, h1, a1, h2, a2, s0, r0, d0, s1, r1, d1, s2, r2, d2):
+def _pre(h0, a0, h1, a1, h2, a2, s0, r0, d0, s1, r1, d1, s2, r2, d2, w0=0, w1=0, w2=0):
+    ws = [w0, w1, w2]
+    for i in range(3):
+        if i < HLEN:
+            if not (0 <= ws[i] <= WMAX):
+                return False
+            if i > 0 and ws[i] < ws[i - 1]:
+                return False                     # operations are listed in the order they happen
+        elif ws[i] != 0:
+            return False
     hs = [(h0, a0), (h1, a1), (h2, a2)]
     ss = [(s0, r0, d0), (s1, r1, d1), (s2, r2, d2)]
     for i in range(3):
@@ -141,7 +171,7 @@ def _pre(h0, a0, h1, a1, h2, a2, s0, r0, d0, s1, r1, d1, s2, r2, d2):
     for i in range(3):
         st, r, d = ss[i]
         if i < ELEN:
-            if not (0 <= st <= 2 and 0 <= r <= MAXID + 1 and -1 <= d <= 2):
+            if not (0 <= st <= SMAX and 0 <= r <= MAXID + 1 and -1 <= d <= DMAX):
                 return False
         elif st != 0 or r != 0 or d != 0:
             return False
@@ -155,12 +185,12 @@ def _pre(h0, a0, h1, a1, h2, a2, s0, r0, d0, s1, r1, d1, s2, r2, d2):
 
 
 def _routing(h0: int, a0: int, h1: int, a1: int, h2: int, a2: int, s0: int, r0: int, d0: int,
-             s1: int, r1: int, d1: int, s2: int, r2: int, d2: int) -> bool:
+             s1: int, r1: int, d1: int, s2: int, r2: int, d2: int, w0: int, w1: int, w2: int) -> bool:
     """
-    pre: _pre(h0, a0, h1, a1, h2, a2, s0, r0, d0, s1, r1, d1, s2, r2, d2)
+    pre: _pre(h0, a0, h1, a1, h2, a2, s0, r0, d0, s1, r1, d1, s2, r2, d2, w0, w1, w2)
     post: _
     """
-    hist, sends = _mk(h0, a0, h1, a1, h2, a2, s0, r0, d0, s1, r1, d1, s2, r2, d2)
+    hist, sends = _mk(h0, a0, h1, a1, h2, a2, s0, r0, d0, s1, r1, d1, s2, r2, d2, w0, w1, w2)
     return run_script(hist, sends) is None
 
 
